@@ -86,8 +86,8 @@ Print Assumptions C13_checker_accepts_model.
      scope::...::last[::last | ::~last | ::operator<op>]   without parameter list.
    Not covered by the round-trip theorems: substitutions S<seq-id>_ as prefix of the function's own name,
    expression / pack / negative-literal template arguments, function,
-   array, pointer-to-member, decltype and vendor types, ABI tags, local names, special names, Rust `$`
-   escapes (those are differential-tested only). *)
+   array, pointer-to-member, decltype and vendor types, ABI tags, local names, special names, Rust components
+   whose text after the last escape contains `..` or whose escapes are cut off (those are differential-tested only). *)
 Theorem C13_roundtrip_subset_partial : forall d, decl_okb d = true -> demangle (mangle d) = Str (simple_name d).
 Proof. exact roundtrip_simple_name. Qed.
 Print Assumptions C13_roundtrip_subset_partial.
@@ -201,6 +201,26 @@ Theorem C13_roundtrip_rust_legacy_partial : forall a cs h, rust_okb a cs h = tru
   demangle (rust_mangle a cs h) = Str (join_sep (a :: cs)).
 Proof. exact roundtrip_rust. Qed.
 Print Assumptions C13_roundtrip_rust_legacy_partial.
+
+(* Rust legacy names with escapes:  _ZN <component>+ 17h<hash> E  where a component is an identifier or
+     <number> ((<text> ..)* <text> $<code>$)+ <tail>      ($LT$ $GT$ $RF$ $BP$ $LP$ $RP$ $C$ $SP$ $uXX$, `..` -> `::`)  or
+     <number> ((<text> ..)* <text> $<code>$)* (<text> ..)* <text> $u20$as$u20$ <anything>   (` as Trait` dropped, `>` printed);
+   rust2_name is the translated path (leading `_` of a component kept), e.g.
+   _ZN61_$LT$$RF$std..io..stdio..Stdout$u20$as$u20$std..io..Write$GT$9write_fmt17h75c561f414a62159E  ->
+   _<&std::io::stdio::Stdout>::write_fmt *)
+Theorem C13_roundtrip_rust_escapes_partial : forall c cs h, Forall rc_ok (c :: cs) -> hash_okb h = true ->
+  Z.of_nat (List.length (rust2_mangle (c :: cs) h)) <= INT_MAX ->
+  demangle (rust2_mangle (c :: cs) h) = Str (rust2_name (c :: cs)).
+Proof. exact roundtrip_rust2. Qed.
+Print Assumptions C13_roundtrip_rust_escapes_partial.
+
+Theorem C13_roundtrip_examples8 :
+  Forall rc_ok [rc_stdout; RPlain (str "write_fmt")] /\
+  rust2_mangle [rc_stdout; RPlain (str "write_fmt")] (str "h75c561f414a62159") =
+    str "_ZN61_$LT$$RF$std..io..stdio..Stdout$u20$as$u20$std..io..Write$GT$9write_fmt17h75c561f414a62159E" /\
+  rust2_name [rc_stdout; RPlain (str "write_fmt")] = str "_<&std::io::stdio::Stdout>::write_fmt".
+Proof. exact roundtrip_examples8. Qed.
+Print Assumptions C13_roundtrip_examples8.
 
 (* functions outside any namespace: _Z <source-name> <builtin type code>* demangles to the identifier *)
 Theorem C13_roundtrip_unscoped_partial : forall id params, unscoped_okb id params = true ->
